@@ -130,6 +130,7 @@ type G struct {
 	nText         int
 	nVar          int
 	nBlk          int
+	nTry          int  // try statements announced through marks
 	nBig          int  // long literal texts emitted so far
 	bigOK         bool // the statement being generated is rendered at most once per execution
 	nYieldContent int
@@ -497,26 +498,33 @@ func (g *G) stmt(sc *scopeInfo) {
 	case 20:
 		n := g.T.Range(6, 12)
 		in := *sc
+		var closers []string
 		for i := 0; i < n; i++ {
 			switch k := g.T.Choose(3); {
 			case k == 1 && o.Try:
 				in = in.child("try")
 				in.inTry++
+				mo, _, mc := g.tryMarks()
 				g.act("try")
+				g.emit(mo)
+				closers = append(closers, mc)
 			case k == 2 && o.Vars:
 				in = in.child("if-let")
 				v := g.newVar()
 				g.act("if " + v + ` := "d"; true`)
 				in.vars = append(in.vars, v)
+				closers = append(closers, "")
 			default:
 				in = in.child("if")
 				g.act("if true")
+				closers = append(closers, "")
 			}
 		}
 		in.depth = o.MaxDepth + 1 // nothing nests further below the chain
 		g.list(in, 2)
-		for i := 0; i < n; i++ {
+		for i := n - 1; i >= 0; i-- {
 			g.act("end")
+			g.emit(closers[i])
 		}
 	case 18:
 		g.nVar++
@@ -788,10 +796,25 @@ func relName(from, to string) string {
 	return strings.Repeat("../", ups) + strings.TrimPrefix(to, "/")
 }
 
+// tryMarks: in worlds with failure sites every try statement announces the dynamic extent of its body
+// through marks (first statement of the body; first statement of the catch body; the statement after
+// {{end}}), so that "was this call made inside a try body?" can be read off the
+// sequence of probe calls instead of off the Runtime under test.
+func (g *G) tryMarks() (open, caught, over string) {
+	if !g.O.Sites {
+		return "", "", ""
+	}
+	g.nTry++
+	k := MarkTryOpen + 3*g.nTry
+	return fmt.Sprintf("{{mark(%d)}}", k), fmt.Sprintf("{{mark(%d)}}", k+1), fmt.Sprintf("{{mark(%d)}}", k+2)
+}
+
 func (g *G) tryStmt(sc scopeInfo) {
 	in := sc.child("try")
 	in.inTry++
+	mOpen, mCaught, mOver := g.tryMarks()
 	g.act("try")
+	g.emit(mOpen)
 	g.list(in, g.O.MaxStmts-1)
 	// C12 worlds: some try bodies really fail (and are caught), so that their catch bodies run and
 	// can hold failure sites - a catch body is outside the try it belongs to
@@ -803,15 +826,18 @@ func (g *G) tryStmt(sc scopeInfo) {
 	switch g.T.Choose(3) {
 	case 1:
 		g.act("catch")
+		g.emit(mCaught)
 		g.text()
 		g.catchProbe(cb)
 	case 2:
 		g.act("catch e")
+		g.emit(mCaught)
 		g.text()
 		g.act("e.Error()")
 		g.catchProbe(cb)
 	}
 	g.act("end")
+	g.emit(mOver)
 }
 
 // catchProbe: a catch body may itself fail (a second fault in the same execution).
@@ -843,6 +869,8 @@ const (
 	MarkTryEnd   = 9002
 	MarkTryBody  = 9003 // first statement of the body: identifies the statement's own buffer
 	MarkRoot     = 9000 // first statement of every root template: the top-level writer baseline
+	MarkTryOpen  = 8000 // 8000+3k: first statement of the body of try statement k; +1: its catch body begins; +2: the statement is over (k < 300)
+	MarkExecOpen = 7000 // first statement of a template that is run through exec(); 7001: its last
 	SetToken     = "@@SET@@"
 )
 
@@ -942,7 +970,13 @@ func (g *G) file(path, role string, extends string, imports []string, visible []
 		sc.ctx = KAny
 		sc.depth = 1
 		sc.canRet = true
+		if g.O.Sites {
+			g.emit(fmt.Sprintf("{{mark(%d)}}", MarkExecOpen))
+		}
 		g.list(sc, 3)
+		if g.O.Sites {
+			g.emit(fmt.Sprintf("{{mark(%d)}}", MarkExecOpen+1))
+		}
 		g.act("return " + g.strExpr(sc, 1))
 	}
 	g.W.Files[path] = g.f.b.String()
